@@ -322,7 +322,10 @@ class MinGenSet():
         start_time = time.perf_counter()
 
         # Solve for increasing numbers of elements in the generating set
-        for k in range(self.lowerbound, max(self.lowerbound+1, len(self.initial_numbers) + 2)):
+        # len(numbers) + 1 elements always suffice without partition constraints (differences of the sorted
+        # numbers and the total); every part of a partition constraint can force one more cut point.
+        extra_cuts = sum(len(c) - 1 for c in (self.partition_constraints or []))
+        for k in range(self.lowerbound, max(self.lowerbound+1, len(self.initial_numbers) + 2 + extra_cuts)):
             self._create_solver(k=k)
             self.solver.optimize()
 
